@@ -752,6 +752,30 @@ pub fn cover(label: &str) {
   with(|c| *c.stats.covers.entry(label.to_string()).or_insert(0) += 1);
 }
 
+/// Vacuity guard per configuration: `cfg_begin` when a path has drawn its configuration,
+/// `cfg_end` when it ran to its end. A configuration that begins but never ends on any path
+/// was never judged (every such path was pruned or aborted): the driver reports that.
+pub fn cfg_begin(label: &str) {
+  if std::thread::panicking() {
+    return;
+  }
+  with(|c| {
+    if !c.quiet {
+      *c.stats.covers.entry(format!("cfg-begin/{}", label)).or_insert(0) += 1
+    }
+  });
+}
+pub fn cfg_end(label: &str) {
+  if std::thread::panicking() {
+    return;
+  }
+  with(|c| {
+    if !c.quiet {
+      *c.stats.covers.entry(format!("cfg-end/{}", label)).or_insert(0) += 1
+    }
+  });
+}
+
 /// The property: z3 decides `pc && !cond`. `key` names the *shape* of the failure.
 pub fn check(cond: u32, key: &str, detail: impl FnOnce() -> String) {
   if std::thread::panicking() {
